@@ -1,2 +1,5 @@
-/-! Driver for C08 (stub: not built yet). -/
-def main : IO Unit := pure ()
+import Drivers.Proto
+import PymocaVerif.Model.FlattenJson
+/-! Driver for C08: same front end as C07 (`flatten`), plus `respell` (the `toNested` / `toDotted`
+    respellings the spelling-invariance theorems are about) and `desugar`. -/
+def main : IO Unit := Drivers.serve PymocaVerif.Flatten.J.handle
